@@ -10,23 +10,23 @@ PY = "/venv/bin/python"
 
 CLAIMS = {
     "C02": dict(
-        technique="sibling agreement of call-site bindings by def-use origin; step-offset forms of propagator indices; role-typed argument binding; memo-key rule over the system classes including memos kept on self by the propagator closures",
-        text="Decides that TEMPO and PT-TEMPO are wired to the same inputs at the same step indices (S1 influence arguments by origin, S2 propagator/step alignment, S3 role-typed plumbing, S4 dkmax/unique provenance, S5 both back ends fill every basis element of the dk=0 tensors from the reduced influence; S1 also: dk reaches influence_matrix unchanged). Numerical agreement of the two contractions is not decided. S7: no memo in the system classes leaves out of its key what the stored propagators were computed from (also the enclosing call's dt / start_time for a memo shared between closures).",
+        technique="sibling agreement of call-site bindings by def-use origin; step-offset forms of propagator indices; role-typed argument binding; memo-key rule over the system classes including memos kept on self by the propagator closures; truthiness tests of numeric options",
+        text="Decides that TEMPO and PT-TEMPO are wired to the same inputs at the same step indices (S1 influence arguments by origin, S2 propagator/step alignment, S3 role-typed plumbing, S4 dkmax/unique provenance, S5 both back ends fill every basis element of the dk=0 tensors from the reduced influence; S1 also: dk reaches influence_matrix unchanged). Numerical agreement of the two contractions is not decided. S7: no memo in the system classes leaves out of its key what the stored propagators were computed from (also the enclosing call's dt / start_time for a memo shared between closures). S8: numeric options are tested for 'not given' with `is None`, never for truthiness (0 is a value).",
         note="Trusted: Python ast; def-use engine; role vocabulary (oqv/roles.py). Partial claim: wiring only.",
         ref="2/C02"),
     "C01": dict(
-        technique="path-conditioned reaching definitions (sign of dk, None-ness of dkmax / add_correlation_time, order of step and dkmax decided per case) with Laurent-polynomial forms of the cell bounds, influence indices and split indices; keyword binding of every truncating call; corner rule of the closed-form cell integrals (affine forms of the eta arguments, helpers written out)",
-        text="Claims C01 in part: the clause 'the memory settings have exactly their documented meaning' and the tolerance clause, as far as they are visible in the shape of the code - which grid cell of the autocorrelation function is integrated per separation and memory setting (N1), which separation enters the TEMPO / PT-TEMPO network at which step (N2), the tcut <-> dkmax conversion incl. nearest-integer rounding of tcut/dt (N3), every truncation uses the requested relative tolerance only (N4). Each is a necessary condition. Equality of the states with the analytic independent-boson solution or the explicit finite-mode evolution is not decided. N5: the closed-form coefficients evaluate the double antiderivative at the corners of the cells, not at rounded or clipped times.",
+        technique="path-conditioned reaching definitions (sign of dk, None-ness of dkmax / add_correlation_time, order of step and dkmax decided per case) with Laurent-polynomial forms of the cell bounds, influence indices and split indices; keyword binding of every truncating call; corner rule of the closed-form cell integrals (affine forms of the eta arguments, helpers written out); cache-key completeness of the memoised double antiderivative under value equality",
+        text="Claims C01 in part: the clause 'the memory settings have exactly their documented meaning' and the tolerance clause, as far as they are visible in the shape of the code - which grid cell of the autocorrelation function is integrated per separation and memory setting (N1), which separation enters the TEMPO / PT-TEMPO network at which step (N2), the tcut <-> dkmax conversion incl. nearest-integer rounding of tcut/dt (N3), every truncation uses the requested relative tolerance only (N4). Each is a necessary condition. Equality of the states with the analytic independent-boson solution or the explicit finite-mode evolution is not decided. N5: the closed-form coefficients evaluate the double antiderivative at the corners of the cells, not at rounded or clipped times. N6: correlations objects that differ in anything the integrand reads never share memoised coefficients.",
         note="Trusted: Python ast; CFG/def-use engine; NodeArray.split/join argument order (index, far side first). Partial claim: structural necessary conditions only.",
         ref="7.2 (C01)"),
     "C03": dict(
-        technique="sibling cross-check of the leg-role table of all PT-MPO consumers (edge-connection sites classified by the slots an edge is connected to / stored in); memo key / invalidation analysis; copy-vs-alias classification of setter stores, convention check of superoperator/cap application, guard presence, index-position discipline of the environment list; ownership analysis of in-place updates (reaching definitions plus return summaries of callees and closure factories)",
-        text="Claims C03 in part: structural necessary conditions - all five consumers of a PT-MPO tensor agree on (past bond, future bond, system in, system out) and on the rank-3 delta expansion (M1), one convention for applying system superoperators and caps (M2), input guards (M3), list position of a process tensor only selects its own bond leg / cap / MPO (M4), no getter serves a memoised tensor outdated by a setter (M5), setters store independent copies (M6), caps close rank-3 / rank-4 tensors with trace_square / (trace_in, trace_out) in both compute_caps (M7). Exactness against an independent joint evolution is not decided; an error shared by producer and all consumers is invisible to this cross-check. M9: the contraction code never updates in place an array it does not own (propagators, controls, tensors handed out by their owners).",
+        technique="sibling cross-check of the leg-role table of all PT-MPO consumers (edge-connection sites classified by the slots an edge is connected to / stored in); memo key / invalidation analysis; copy-vs-alias classification of setter stores, convention check of superoperator/cap application, guard presence, index-position discipline of the environment list; ownership analysis of in-place updates (reaching definitions plus return summaries of callees and closure factories); loop-exit analysis of the steppers (break in the last iteration vs running out of steps)",
+        text="Claims C03 in part: structural necessary conditions - all five consumers of a PT-MPO tensor agree on (past bond, future bond, system in, system out) and on the rank-3 delta expansion (M1), one convention for applying system superoperators and caps (M2), input guards (M3), list position of a process tensor only selects its own bond leg / cap / MPO (M4), no getter serves a memoised tensor outdated by a setter (M5), setters store independent copies (M6), caps close rank-3 / rank-4 tensors with trace_square / (trace_in, trace_out) in both compute_caps (M7). Exactness against an independent joint evolution is not decided; an error shared by producer and all consumers is invisible to this cross-check. M9: the contraction code never updates in place an array it does not own (propagators, controls, tensors handed out by their owners). M10: the pre-measurement control of the last step lies on every path to the final record.",
         note="Trusted: tensornetwork edge-connection semantics; numpy copy/alias table (np.array copies, np.asarray may not). Partial claim.",
         ref="7.2 (C03)"),
     "C04": dict(
-        technique="algebraic shape checks: coefficient/operand form of every Lindblad dissipator, Kronecker-factor convention table of the superoperator builders, factor structure of the influence exponent, return-expression form of normalised read-outs; value-preservation analysis of the augmented MPS constructor",
-        text="Claims C04 in part: the clauses that hold by construction - trace-annihilating form of every dissipator construction site (D1), one (A (x) B^T) superoperator convention so that commutators annihilate the trace (D2), normalised read-outs (D3), and the factor structure of the influence exponent that gives trace preservation of the last-leg sum and I(s+,s-)* = I(s-,s+) (D4), one transposition parity of the Hermitian half-step propagator along the Gibbs path (D5), caps closed with the right trace vectors per tensor rank (D6). Each is a necessary condition of unit trace / Hermiticity. Positivity and the numerical size of deviations after SVD truncation are not decided. D7: the augmented MPS keeps the gammas and lambdas it is given (value-preserving conversions only).",
+        technique="algebraic shape checks: coefficient/operand form of every Lindblad dissipator, Kronecker-factor convention table of the superoperator builders, factor structure of the influence exponent, return-expression form of normalised read-outs; value-preservation analysis of the augmented MPS constructor; finite enumeration of the bond-matrix indices between recorded sites",
+        text="Claims C04 in part: the clauses that hold by construction - trace-annihilating form of every dissipator construction site (D1), one (A (x) B^T) superoperator convention so that commutators annihilate the trace (D2), normalised read-outs (D3), and the factor structure of the influence exponent that gives trace preservation of the last-leg sum and I(s+,s-)* = I(s-,s+) (D4), one transposition parity of the Hermitian half-step propagator along the Gibbs path (D5), caps closed with the right trace vectors per tensor rank (D6). Each is a necessary condition of unit trace / Hermiticity. Positivity and the numerical size of deviations after SVD truncation are not decided. D7: the augmented MPS keeps the gammas and lambdas it is given (value-preserving conversions only). D8: between two recorded sites the contraction uses exactly lambda_{a+1..b} and the traced tensors of sites a+1..b-1.",
         note="Trusted: Kronecker/vec convention stated in operators.py; eta.real/eta.imag real. Partial claim: structural necessary conditions only.",
         ref="2/C04 and 7.2"),
     "C05": dict(
